@@ -133,6 +133,20 @@ class Interrupt(BaseException):
     pass
 
 
+# (device id, operation id) -> 'device.operation', the coordinates op-level
+# faults are addressed in (independent of low-level call granularity)
+IO_NAMES = {
+    (2, 1): 'terminal.cls', (2, 2): 'terminal.print', (2, 3): 'terminal.color',
+    (2, 4): 'terminal.view_print', (2, 5): 'terminal.set_mode', (2, 6): 'terminal.width',
+    (2, 7): 'terminal.locate', (2, 8): 'terminal.input', (2, 9): 'terminal.inkey',
+    (3, 1): 'pcspkr.beep', (3, 2): 'pcspkr.play', (3, 3): 'pcspkr.sound',
+    (5, 1): 'time.get_time', (6, 1): 'rng.seed', (6, 2): 'rng.rnd',
+    (7, 1): 'memory.poke', (7, 2): 'memory.peek', (7, 3): 'memory.set_segment',
+    (7, 4): 'memory.set_default_segment', (7, 5): 'memory.bsave', (7, 6): 'memory.bload',
+    (8, 1): 'data.read', (8, 2): 'data.restore', (9, 1): 'fs.kill',
+}
+
+
 class BudgetExceeded(BaseException):
     """Step budget exhausted: reported as a hang, never swallowed by the VM."""
 
@@ -165,6 +179,8 @@ class SimPeripherals:
             # stdio (builtins.input / sys.stdout are owned by the simulator)
             self._real = qb()['machine_mod'].DumbPeripheralsImpl()
         self.history = []
+        self.origins = []         # per history entry: (tick, device id, op id)
+        self.pending = None       # fault armed for the io instruction in progress
         self.ncalls = 0
         self.clock = float(script.get('clock0', 0.0))
         self.sim_seconds = 0.0
@@ -197,6 +213,7 @@ class SimPeripherals:
                 # "operation not implemented": attribute lookup fails on impl
                 self.ncalls = nxt
                 self.history.append([name, '<not-implemented>'])
+                self.origins.append(self._sim.cur_io)
                 self._fire('F2')
                 raise AttributeError(f'{name} not implemented', name=name,
                                      obj=self)
@@ -210,11 +227,18 @@ class SimPeripherals:
         self.ncalls += 1
         seq = self.ncalls
         self.history.append([name] + [_plain(a) for a in args])
+        self.origins.append(self._sim.cur_io)
         d = self._deltas[(seq - 1) % len(self._deltas)]
         self.clock += d
         self.sim_seconds += abs(d)
         if d < 0 or d >= 3600:
             self._fire('F7')
+        if self.pending is not None:
+            f, self.pending = self.pending, None
+            self._fire(f['kind'])
+            if f['kind'] == 'F1op':
+                raise q['DeviceError'](error_msg='injected failure')
+            self._sim.deliver_interrupt()
         for f in self._by_call.get(seq, ()):
             if f['kind'] == 'F1':
                 self._fire('F1')
@@ -344,6 +368,12 @@ class Sim:
             if f['kind'] == 'F5a':
                 self.irq_ticks[f['tick']] = f
         self.irq_delivered_at = None
+        self.cur_io = None
+        self.io_counts = {}
+        self.op_faults = {}
+        for f in self.plan:
+            if f['kind'] in ('F1op', 'F5op'):
+                self.op_faults[(f['op'], f['nth'])] = f
         self.impl = SimPeripherals(self.script, self.plan, self, kind=impl_kind)
         self.module = mi.fresh_module() if fresh_module else mi.module
         with contextlib.redirect_stdout(self.stdout):
@@ -381,10 +411,12 @@ class Sim:
         else:
             for h in self.pre_hooks:
                 h(self, n, False)
-        if self.record_io:
+        if self.record_io or self.op_faults:
             self._note_io(n)
         self._orig_tick()
         self.ticks = n + 1
+        self.cur_io = None
+        self.impl.pending = None
         st = self.cpu.stack
         if st:
             v = st[-1].value
@@ -405,6 +437,16 @@ class Sim:
         if ins is None or ins[0] != 'io':
             return
         dev, op = ins[1]
+        self.cur_io = (n, dev, op)
+        if self.op_faults:
+            key = IO_NAMES.get((dev, op))
+            k = self.io_counts.get(key, 0) + 1
+            self.io_counts[key] = k
+            f = self.op_faults.get((key, k))
+            if f is not None:
+                self.impl.pending = f
+        if not self.record_io:
+            return
         ev = [n, cpu.pc, dev, op]
         if dev == 2 and op == 2:
             # typed PRINT operands as they sit on the operand stack
